@@ -115,6 +115,7 @@ def main(argv=None):
     prop = args.prop
     tier = args.tier if args.tier in ("quick", "thorough") else "quick"
     seed = int(os.environ.get("VERIF_SEED", "0") or 0)
+    os.environ["PYVC_TIER"] = tier        # units may widen their enumerations in the thorough tier
     t_start = time.time()
     ensure_deps()
     OUT = os.environ.get("PYVC_OUT", VERIF)          # scratch runs (mutant matrix) write elsewhere
@@ -142,7 +143,6 @@ def main(argv=None):
             for sh in range(u.shards):
                 tasks.append((unit_spec(u), mode, budget, sh))
     results = []
-    tasks.sort(key=lambda t: -getattr(importlib.import_module(t[0].split(':')[0]), t[0].split(':')[1]).shards)
     if tasks:
         ctx = multiprocessing.get_context("fork")
         with ctx.Pool(min(args.jobs, len(tasks))) as pool:
